@@ -85,6 +85,17 @@ def gen_case(rng, pool, malformed=False):
                 ops.append(("getdefault", t, None))
             elif rng.random() < 0.2:
                 ops.append(("getcurrent", t))
+        elif r < 0.53 and handle and len(ops) > created + 2 and not malformed:
+            # a thread exits; its thread-local destructors open scopes (one of them after tracing-core's own thread-local is gone).
+            # Prefer a thread without scopes while ANOTHER thread holds one, then let the others emit.
+            cand = [u for u in range(nthreads) if depth[u] == 0 and any(depth[v] for v in range(nthreads) if v != u)]
+            if cand and rng.random() < 0.8:
+                t = rng.choice(cand)
+            ops.append(("exit", t, rng.choice(sorted(handle)) + 1, rng.choice(events)))
+            depth[t] = 0
+            for u in range(nthreads):
+                if u != t and depth[u] > 0 and rng.random() < 0.8:
+                    ops.append(("emit", u, rng.choice(events)))
         elif r < 0.70:
             ops.append(("emit", t, rng.choice(events)))
         elif r < 0.86:
@@ -205,6 +216,17 @@ class Spec:
                 # nested, documented); that the thread is unaffected AFTERWARDS is judged by every later op.
                 return {"recv": [d - 1] if acc else [], "cur": d, "outer_only": 1, "panic": int(acc and o[3] in (1, 3))}
             return {"r": int(acc), "cur": d}
+        if k == "exit":
+            if not self.valid(o[2]):
+                return {"bad": 1}
+            # the thread's scopes unwind; each of its two destructors emits inside its own with_default(&d) scope.  The property
+            # sends such an emission to d (if d accepts it); the one made after the thread-local is destroyed reaches nobody (every
+            # try_with fails) — so: at least one and at most two deliveries, all to d; nothing else is demanded here.  That the
+            # OTHER threads are unaffected is judged by every later op.
+            self.stack[o[1]] = []
+            d = o[2]
+            acc = d > 0 and self.accepts(d - 1, pool[o[3]])
+            return {"exit_to": d - 1 if acc else None}
         if k == "panic":
             if not all(self.valid(d) for d in o[2]):
                 return {"bad": 1}
@@ -243,6 +265,13 @@ def oracle(pool, case, recs):
         if r.get("bad"):
             vio.append(("op %s refused" % (list(o),), i, False))
             continue
+        if "exit_to" in e:
+            judged += 1
+            got = [d[0] for d in r["del"]]
+            want = e["exit_to"]
+            if (want is None and got) or (want is not None and (not got or len(got) > 2 or any(g != want for g in got))):
+                vio.append(("thread %d exits; its destructors emit inside with_default(collector %s): received by %s" %
+                            (o[1], o[2] - 1 if o[2] else "none", got), i, False))
         if "ok" in e:
             judged += 1
             if r.get("ok") != e["ok"]:
@@ -285,8 +314,10 @@ def nontrivial(case):
             return True
         if o[0] == "setglobal" and used:
             return True
-        if o[0] in ("open", "emit", "getdefault", "getcurrent", "panic", "emitcb"):
+        if o[0] in ("open", "emit", "getdefault", "getcurrent", "panic", "emitcb", "exit"):
             used = True
+        if o[0] == "exit":
+            seen_close = True
         if o[0] == "emitcb":
             seen_close = True       # an emission / lookup after a callback that panicked or emitted is non-trivial too
     return False
@@ -298,6 +329,13 @@ def spec_rows_vs_coq(case, spec_rows, coq_spec):
     for i, (o, e, pos) in enumerate(zip(case["ops"], spec_rows, idx)):
         if o[0] == "close" and o[2] != 0:
             return None         # Model.aspec is only meant for properly nested histories (it ignores k)
+        if o[0] == "exit":
+            if "bad" in e:
+                continue
+            row = coq_spec[pos[-3]]          # the emission of the destructor that runs inside an ordinary scope on d
+            if row != [0, o[2]]:
+                return {"op_index": i, "python": e, "coq": row, "want": [0, o[2]]}
+            continue
         if o[0] == "panic":
             if "bad" in e:
                 continue
@@ -529,7 +567,6 @@ def explore(ctx, rep, fx, tag, binpath, pool, smax, cases):
         for o, r in zip(case["ops"], recs):
             rep.count("op:" + o[0])
             if o[0] == "emitcb":
-                live = sum(1 for q in case["ops"][:case["ops"].index(o)] if q[0] in ("open",)) > 0
                 rep.count("emitcb:%s:%s" % ({1: "panic", 2: "reentrant", 3: "reentrant+panic"}[o[3]], "callback ran" if r["del"] else "not received"))
         if nontrivial(case):
             rep.nontrivial.add(D.case_text(case))
